@@ -61,10 +61,10 @@ KNOWN = [
                   'constraint EXPRESSION is unknown an exemplar constrains nothing; `let lib = import "lib.ucg"; let x :: (lib.n) = "s";` is refused)',
          clause='a named constraint behaves exactly like the same constraint written inline'),
     # exclusion: first constraint a pure exemplar AND second constraint a pure exemplar AND the value conforms to the second AND the value widened by
-    # what the first exemplar says beyond it (fields the value lacks; inside a tuple, element types where the value is `[]`) does not
+    # what the first exemplar says beyond it (fields the value lacks; in such a tuple also element types where the value has `[]`) does not
     dict(id='wider_exemplar_remembered', input='let x :: {a = 0, b = ""} = {a = 1};\nlet y :: {a = 0, b = 0} = x;',
          observed='refused (Incompatible Tuple Shapes) although the value of x, {a = 1}, conforms to {a = 0, b = 0}: the binding is remembered with the fields of the exemplar it '
-                  'does not have (flip side of fix 3247ac2); so are `let x :: {a = 0} = {}; let y :: {z = 1} = x;` and `let e = {l = [""]}; let x :: e = {l = []}; let y :: {l = [true]} = x;`',
+                  'does not have (flip side of fix 3247ac2); so are `let x :: {a = 0} = {}; let y :: {z = 1} = x;` and `let e = {a = 0, l = [""]}; let x :: e = {l = []}; let y :: {l = [true]} = x;`',
          clause=CLAUSE),
     # exclusion: first constraint a pure exemplar with `[]` where the value has a non-empty list AND second constraint a pure exemplar AND the value
     # does not conform to the second AND the value with those lists emptied (an element of an emptied list: anything) would
@@ -675,6 +675,42 @@ def reach_values(K, rnd, n):
     return keep + rnd.sample(rest, min(len(rest), n - len(keep)))
 
 
+def cli_relative_imports(rnd):
+    """the same through the real CLI with the library next to the program (relative import paths): number of cases, or a violation"""
+    import os, shutil, tempfile
+    d = tempfile.mkdtemp(prefix='verif_c06cli_')
+    lib = 'constraint port = in 1..10;\nconstraint lvl = "a" | "b";\nlet ex = {a = 0, b = ""};\nlet holder = {p = port};\nlet give = func() => lvl;\n'
+    try:
+        os.makedirs(os.path.join(d, 'sub'))
+        for rel in ('lib.ucg', os.path.join('sub', 'lib.ucg')):
+            open(os.path.join(d, rel), 'w').write(lib)
+        progs = []
+        for rel in ('lib.ucg', 'sub/lib.ucg'):
+            imp = 'let lib = import "%s";\n' % rel
+            for expr, K, vals in [('(lib.port)', ('rng', 'int', 1, 10), [I(0), I(1), I(10), I(11), I(50), S('a')]),
+                                  ('(lib.lvl)', alt_of(S('a'), S('b')), [S('a'), S('b'), S('c'), I(1)]),
+                                  ('(lib.holder.p)', ('rng', 'int', 1, 10), [I(10), I(11)]),
+                                  ('(lib.ex)', ('ex', T(('a', I(0)), ('b', S('')))), [T(('a', I(1))), T(('a', S('s'))), I(1)]),
+                                  ('(lib.lvl) | 7', ('alt', [('named', alt_of(S('a'), S('b'))), ('ex', I(7))]), [S('b'), I(7), I(8)])]:
+                if rel == 'lib.ucg' or expr == '(lib.port)':
+                    progs.append((imp + 'let x :: %s = %s;\n' % (expr, vsrc(rnd.choice([v for v in vals if not admits(K, v)]))), False))
+                if rel != 'lib.ucg' and expr == '(lib.lvl)':
+                    progs.append((imp + 'let x :: %s = %s;\n' % (expr, vsrc(rnd.choice([v for v in vals if admits(K, v)]))), True))
+            if rel == 'lib.ucg':
+                progs.append((imp + 'let al = lib.port;\nlet x :: al = 11;\n', False))
+                progs.append((imp + 'let kf = func() => lib.port;\nlet x :: kf() = 10;\n', True))
+        for i, (src, ok) in enumerate(progs):
+            open(os.path.join(d, 'p%d.ucg' % i), 'w').write(src)
+            rc, out, err = R.run_ucg(['build', 'p%d.ucg' % i], d)
+            if (rc == 0) != ok or (not ok and not (out + err).strip()) or rc not in (0, 1):
+                return dict(detail='`%s` [lib.ucg = `%s`]: `ucg build` exit status %d, expected %s' % (src.strip().replace('\n', ' '), lib.strip().replace('\n', ' '), rc, 'success' if ok else 'a build error'),
+                            input=dict(source=src, files={'lib.ucg and sub/lib.ucg': lib}, expected='builds (exit 0)' if ok else 'build error (exit status != 0) with a diagnostic',
+                                       observed='exit %d %s' % (rc, (out + err)[:300]), how='real CLI: `ucg build pN.ucg` in a directory holding the program, lib.ucg and sub/lib.ucg'))
+        return len(progs)
+    finally:
+        shutil.rmtree(d, ignore_errors=True)
+
+
 def standin_named_reach(tier, seed):
     import os, shutil, tempfile
     rnd = random.Random(seed)
@@ -716,11 +752,11 @@ def standin_named_reach(tier, seed):
                 exs = REACH_EXEMPLARS if thorough else rnd.sample(REACH_EXEMPLARS, 2)
                 ks += [(('ex', e), rnd.choice(['constraint', 'let']) if not thorough else k) for e in exs for k in (['constraint', 'let'] if thorough else [None])]
             for K, kind in ks:
-                vals = reach_values(K, rnd, (14 if K[0] != 'ex' else 10) if thorough else 6)
+                vals = reach_values(K, rnd, (12 if K[0] != 'ex' else 8) if thorough else 5)
                 for v in vals:
                     one(K, kind, form, v, None)
                 if K[0] != 'ex':
-                    for v in rnd.sample(vals, min(6 if thorough else 3, len(vals))) + [SPELL_ARM]:
+                    for v in rnd.sample(vals, min(4 if thorough else 2, len(vals))) + [SPELL_ARM]:
                         one(K, kind, form, v, rnd.choice(['first', 'last']))
                 if thorough:
                     for v in rnd.sample(vals, min(3, len(vals))):
@@ -731,13 +767,24 @@ def standin_named_reach(tier, seed):
                                   ('(bt.lo)', '(bt.hi)', ['let bt = {lo = %s, hi = %s};' % (vsrc(I(lo)), vsrc(I(hi)))])]:
                 for v in range_values('int', lo, hi):
                     b.add_program('\n'.join(pre + ['let x :: in %s..%s = %s;' % (los, his, vsrc(v))]), in_range(('rng', 'int', lo, hi), v), 'range bounds spelled as expressions')
-        return b.run('named_reach',
-                     '%d ways to reach a named constraint in constraint position (bare / parenthesised name, let / constraint alias, tuple field [plain, quoted, nested, copied, in a list], '
-                     'list element, function result, select, module parameter / output / field, imported file [field, alias, nested, via tuple, via function], and 5 of unknown static '
-                     'type [identity function, function of a field, two-branch select, mixed list, selector on an inline import], run with ranges / alternations only) x %s of (%d ranges, %d alternations [each also as first / last alternative next to a literal], '
-                     '%d exemplars by `constraint` and by `let`) x %s; int range bounds spelled by names, arithmetic, tuple fields'
-                     % (len(REACH_FORMS), 'all' if thorough else 'seeded 4 + 2', len(REACH_RANGES), len(REACH_ALTS), len(REACH_EXEMPLARS),
-                        'up to 14 deciding values (lo-1, lo, lo+1, hi-1, hi, hi+1, every literal and its neighbours first, then other types), literal and 3 computed' if thorough else '6 seeded deciding values'))
+        ncli = 9
+        r = b.run('named_reach',
+                  '%d ways to reach a named constraint in constraint position (bare / parenthesised name, let / constraint alias, tuple field [plain, quoted, nested, copied, in a list], '
+                  'list element, function result, select, module parameter / output / field, imported file [field, alias, nested, via tuple, via function], and 5 of unknown static '
+                  'type [identity function, function of a field, two-branch select, mixed list, selector on an inline import], run with ranges / alternations only) x %s of (%d ranges, '
+                  '%d alternations [each also as first / last alternative next to a literal], %d exemplars by `constraint` and by `let`) x %s; int range bounds spelled by names, arithmetic, '
+                  'tuple fields; %d programs importing `lib.ucg` / `sub/lib.ucg` by relative path built by the real `ucg build` (exit status)'
+                  % (len(REACH_FORMS), 'all' if thorough else 'seeded 4 + 2', len(REACH_RANGES), len(REACH_ALTS), len(REACH_EXEMPLARS),
+                     'up to 12 deciding values (lo-1, lo, lo+1, hi-1, hi, hi+1, every literal and its neighbours first, then other types), literal and 3 computed' if thorough
+                     else '5 seeded deciding values', ncli))
+        if r['status'] != 'ok':
+            return r
+        cli = cli_relative_imports(rnd)
+        if not isinstance(cli, int):
+            return dict(name='named_reach', bound=r['bound'], cases=r['cases'], status='violation', detail=cli['detail'], input=cli['input'])
+        assert cli == ncli
+        r['cases'] += cli
+        return r
     finally:
         shutil.rmtree(libdir, ignore_errors=True)
 
@@ -767,6 +814,7 @@ CHAIN_FIRST = [
     (('ex', T()), [T(('a', I(1))), T(('a', S('s')), ('b', L(I(1))))]),
     (('named', ('ex', T(('a', T(('b', I(0))))))), [T(('a', T(('b', I(1)), ('c', S('s'))))), T(('a', T(('b', I(1)))), ('d', F(1.5)))]),
     (('letex', T(('a', I(0)), ('l', L(S(''))))), [T(('a', I(1)), ('l', L(S('p'), S('q'))), ('k', B(True))), T(('l', L()))]),
+    (('ex', T(('l', L(S(''))))), [T(('l', L())), T(('l', L()), ('k', I(1)))]),
     # list exemplars with fewer / more element types than the value
     (('ex', L()), [L(I(1)), L(S('s'), S('t')), L(L(I(1)))]),
     (('ex', L(I(0))), [L(), L(I(1), I(2))]),
@@ -852,13 +900,14 @@ def shape_of(c):
 
 
 def widened(e, v, in_tuple=False):
-    """v plus what the exemplar e says beyond it: the fields e has and v lacks and, inside a tuple, the elements of e where v is the
+    """v plus what the exemplar e says beyond it: the fields e has and v lacks and, in such a tuple, the elements of e where v is the
     empty list (at every depth)"""
     if e[0] != v[0] or e[0] not in ('tuple', 'list'):
         return v
     if e[0] == 'tuple':
         fe = dict(e[1])
-        return T(*([(n, widened(fe[n], x, True) if n in fe else x) for n, x in v[1]] + [(n, x) for n, x in e[1] if n not in dict(v[1])]))
+        lacks = any(n not in dict(v[1]) for n, _ in e[1])
+        return T(*([(n, widened(fe[n], x, lacks) if n in fe else x) for n, x in v[1]] + [(n, x) for n, x in e[1] if n not in dict(v[1])]))
     if not v[1]:
         return e if in_tuple else v
     return L(*[widened(e[1][0], x, in_tuple) if len(e[1]) == 1 else x for x in v[1]])
@@ -892,8 +941,8 @@ def standin_chained_lets(tier, seed):
                 c2s = second_constraints(w)
                 if not thorough and len(c2s) > 7:
                     c2s = c2s[:1] + rnd.sample(c2s[1:], 6)
-                elif thorough and len(c2s) > 12:
-                    c2s = c2s[:2] + rnd.sample(c2s[2:], 10)
+                elif thorough and len(c2s) > 10:
+                    c2s = c2s[:2] + rnd.sample(c2s[2:], 8)
                 e1 = shape_of(c1)
                 # what the same use gives for the value as the KNOWN defects see it (None: the use has no static type at all, e.g. an element of `[]`)
                 w_wide = use_forms(widened(e1, v)).get(un, (0, 0, w))[2] if e1 is not None else w
@@ -918,7 +967,7 @@ def standin_chained_lets(tier, seed):
                  'element types, plain exemplars, ranges, 3 that refuse the value) x their %d values x %s uses of the binding (direct, alias, inside a list / tuple, through a field, '
                  'list element, function, select, module, copy, selector of each field, element, arithmetic) x %s second constraints (the shape of the used value, every single-node edit of '
                  'it, every primitive, ranges / alternations around it; inline and named)'
-                 % (len(CHAIN_FIRST), sum(len(v) for _, v in CHAIN_FIRST), 'all' if thorough else '5 seeded', 'up to 12 seeded' if thorough else '7 seeded'))
+                 % (len(CHAIN_FIRST), sum(len(v) for _, v in CHAIN_FIRST), 'all' if thorough else '5 seeded', 'up to 10 seeded' if thorough else '7 seeded'))
 
 
 STANDINS = [standin_exemplar_shapes, standin_range_bounds, standin_alternations, standin_recursive_documented, standin_named_reach, standin_chained_lets]
